@@ -11,6 +11,8 @@ PAIRS = [("Gen/RequireGlue.v", "resolve_src", "Model/ResolveSrc.v", "expected_re
           "the text of the URLSearchParams code (urlsearchparams.go, nodeurl.go, escape.go) that Model/SearchParams.v was written against"),
          ("Gen/UrlGlue.v", "url_funcs", "Model/UrlSrc.v", "expected_url_funcs",
           "the text of the functions of url/url.go that handle the URL object's state, which Model/UrlObject.v and Model/UrlResolve.v were written against"),
+         ("Gen/RequireGlue.v", "loader_src", "Model/LoaderSrc.v", "expected_loader_src",
+          "the text of Registry.getSource and Registry.getCompiledSource that Model/JsonModule.v was written against"),
          ("Gen/LoopSkeleton.v", "loop_funcs", "Model/LoopSrc.v", "expected_loop_funcs",
           "the text of eventloop/eventloop.go that Model/Loop.v was written against"),
          ("Gen/UtilFormat.v", "console_util_src", "Model/ConsoleSrc.v", "expected_console_util_src",
